@@ -194,6 +194,14 @@ def validate(seed, tier):
                 inp.update(mode=mode)
                 runner.concrete_check('orthonormalize', inp)
                 n += 1
+                # dtype mechanics are erased by the symbolic encoding; this sweep pushes real and INTEGER valued tensors
+                # (named in the property's quantifier) through the real code -- sampling, reported as such
+                for kw in (dict(real=True), dict(integer=True), dict(integer=True, qrange=(0, 1))):
+                    for _ in range(3):
+                        inp = concrete.random_state_input(rng, cls, L, **kw)
+                        inp.update(mode=mode)
+                        runner.concrete_check('orthonormalize', inp)
+                        n += 1
     # shimmed path against plain NumPy
     qd = np.array([0, 1]); qD = [np.array([0]), np.array([0, 1, 1]), np.array([1])]
     psi = ptn.MPS(qd, qD, fill='random', rng=rng)
